@@ -82,7 +82,8 @@ fn rem(st: &RdfStore, m: &mut u8) { let k = any_k(); let t = triple(k); let was 
 rdf_h!(c13_iir_indexed, true, st, m, { ins(&st, &mut m); ins(&st, &mut m); rem(&st, &mut m); });
 
 //@ property: C13
-//@ tier: quick
+//@ tier: thorough
+//@ optional: yes
 //@ cap_s: 600
 //@ mem_gb: 10
 //@ unwind: 5
@@ -94,7 +95,8 @@ rdf_h!(c13_iir_indexed, true, st, m, { ins(&st, &mut m); ins(&st, &mut m); rem(&
 rdf_h!(c13_ii_indexed, true, st, m, { ins(&st, &mut m); ins(&st, &mut m); });
 
 //@ property: C13
-//@ tier: quick
+//@ tier: thorough
+//@ optional: yes
 //@ cap_s: 600
 //@ mem_gb: 10
 //@ unwind: 5
@@ -106,7 +108,8 @@ rdf_h!(c13_ii_indexed, true, st, m, { ins(&st, &mut m); ins(&st, &mut m); });
 rdf_h!(c13_ii_unindexed, false, st, m, { ins(&st, &mut m); ins(&st, &mut m); });
 
 //@ property: C13
-//@ tier: quick
+//@ tier: thorough
+//@ optional: yes
 //@ cap_s: 600
 //@ mem_gb: 10
 //@ unwind: 5
@@ -116,3 +119,74 @@ rdf_h!(c13_ii_unindexed, false, st, m, { ins(&st, &mut m); ins(&st, &mut m); });
 //@ bound: word insert,remove; universe 2x2x2; object index ON
 //@ oracle: remove returns whether the triple was present; afterwards every pattern sees exactly the remaining set
 rdf_h!(c13_ir_indexed, true, st, m, { ins(&st, &mut m); rem(&st, &mut m); });
+
+/// pattern position: 0/1 = bound to universe term 0/1, 2 = unbound
+fn pat_term(which: u8, sel: u8) -> Option<Term> { if sel == 2 { None } else { Some(match which { 0 => subj(sel), 1 => pred(sel), _ => obj(sel) }) } }
+
+//@ property: C13
+//@ tier: quick
+//@ cap_s: 400
+//@ encodes: TriplePattern::matches, Term::eq (derived), Iri/Literal eq, Triple::{new,subject,predicate,object}
+//@ symbolic: the triple (which of the 8 universe triples: lexical bytes symbolic) and the pattern (each position bound to either universe term or unbound: 27 patterns, all 8 bound/unbound shapes)
+//@ bound: universe {iri a, iri b} x {iri p, iri q} x {"a"^^i, "b"^^i}; one triple, one pattern
+//@ oracle: matches() is true exactly when every bound position equals the triple's term
+#[kani::proof]
+#[kani::unwind(4)]
+fn c13_pattern_matches_spec() {
+    let k = any_k();
+    let t = triple(k);
+    let (ps, pp, po): (u8, u8, u8) = (kani::any(), kani::any(), kani::any());
+    kani::assume(ps <= 2 && pp <= 2 && po <= 2);
+    let pat = TriplePattern { subject: pat_term(0, ps), predicate: pat_term(1, pp), object: pat_term(2, po) };
+    assert!(pat.matches(&t) == m_match(k, ps, pp, po), "pattern matching disagrees with the set semantics");
+    kani::cover!(ps == 2 && pp != 2 && po != 2 && pat.matches(&t));
+    kani::cover!(ps != 2 && !pat.matches(&t));
+    std::mem::forget((t, pat));
+}
+
+fn mk_term(kind: u8, b: u8) -> Term { with_s1(b, |s| match kind { 0 => Term::iri(s), 1 => Term::blank(s), 2 => Term::literal(s), 3 => Term::typed_literal(s, "i"), _ => Term::lang_literal(s, "e") }) }
+macro_rules! term_pair { ($x:expr, $y:expr, $ka:expr, $kb:expr) => {{
+    let (a, b) = (mk_term($ka, $x), mk_term($kb, $y));
+    let e = a == b;
+    assert!(a == a);
+    assert!(e == (b == a));
+    assert!(e == ($ka == $kb && $x == $y), "term equality differs from (same kind and tag, same lexical form)");
+    std::mem::forget((a, b));
+}}; }
+
+//@ property: C13
+//@ tier: quick
+//@ cap_s: 400
+//@ encodes: Term::eq (derived) across Iri / BlankNode / typed Literal
+//@ symbolic: the one-byte lexical form of each of two terms; kinds range over all 3x3 ordered pairs of {iri, blank, typed literal} (unrolled)
+//@ bound: one-byte lexical forms; datatype "i"
+//@ oracle: equality is reflexive, symmetric, never holds across kinds, and within a kind holds exactly when the lexical bytes are equal
+#[kani::proof]
+#[kani::unwind(4)]
+fn c13_term_equality_laws() {
+    let (x, y): (u8, u8) = (kani::any(), kani::any());
+    kani::assume(x < 128 && y < 128);
+    term_pair!(x, y, 0, 0); term_pair!(x, y, 0, 1); term_pair!(x, y, 0, 3);
+    term_pair!(x, y, 1, 0); term_pair!(x, y, 1, 1); term_pair!(x, y, 1, 3);
+    term_pair!(x, y, 3, 0); term_pair!(x, y, 3, 1); term_pair!(x, y, 3, 3);
+    kani::cover!(x == y);
+}
+
+//@ property: C13
+//@ tier: quick
+//@ cap_s: 600
+//@ mem_gb: 10
+//@ encodes: Term::eq / Literal::eq across plain, typed and language-tagged literals
+//@ symbolic: the one-byte lexical form of each of two literals; tags range over the 3x3 ordered pairs of {plain (xsd:string), typed "i", language-tagged "e"} (unrolled)
+//@ bound: one-byte lexical forms (the datatype IRIs compared are up to 53 bytes: unwind 60)
+//@ oracle: equal lexical forms with different tags are different terms; same tag: equal iff same lexical byte
+#[kani::proof]
+#[kani::unwind(60)]
+fn c13_literal_tag_equality() {
+    let (x, y): (u8, u8) = (kani::any(), kani::any());
+    kani::assume(x < 128 && y < 128);
+    term_pair!(x, y, 2, 2); term_pair!(x, y, 2, 3); term_pair!(x, y, 2, 4);
+    term_pair!(x, y, 3, 2); term_pair!(x, y, 3, 4);
+    term_pair!(x, y, 4, 2); term_pair!(x, y, 4, 3); term_pair!(x, y, 4, 4);
+    kani::cover!(x == y);
+}
